@@ -738,6 +738,10 @@ func checkC10(p *core.Program, r *core.Report) {
 
 	// ------------------------------------------------------------------ R4
 	c10R4(p, r)
+
+	// ------------------------------------------------------------------ R5 the resume limit
+	r.Rule("R5", "'resume limit reached' ends the session as failed: the limit test and the wait counter it relies on (every kind of wait counts) are obligations here too (imported from C05/R3)")
+	importObligations(p, r, "C05", map[string]bool{"R3": true}, "R5", "the resume limit does not end the session as the property prescribes")
 }
 
 func rejectionCode(ev ssa.Value, newErr *ssa.Function) string {
